@@ -31,7 +31,7 @@ const (
 )
 
 type op struct {
-	Op        string       `json:"op"` // recv | advance | cleanup | junk
+	Op        string       `json:"op"` // recv | advance | cleanup | junk | issue (the flooder under test issues the command itself)
 	Kind      string       `json:"kind,omitempty"`
 	From      int          `json:"from,omitempty"`
 	Cmd       *scx.CmdSpec `json:"cmd,omitempty"`
@@ -84,6 +84,7 @@ type entryObs struct {
 type stepObs struct {
 	NowNs    int64
 	IsRecv   bool
+	IsIssue  bool
 	OpIdx    int
 	Accepted bool
 	Fwd      []int
@@ -104,8 +105,9 @@ func snapshot(f *flood.Flooder) []entryObs {
 	return out
 }
 
-func runCase(t *testing.T, keys *scx.Keys, cs *caseSpec) (steps []stepObs, acc map[string][]acceptance, overflow bool, panicked string) {
+func runCase(t *testing.T, keys *scx.Keys, cs *caseSpec) (steps []stepObs, acc map[string][]acceptance, ownAccepted [][2]int, overflow bool, panicked string) {
 	acc = map[string][]acceptance{}
+	issued := map[string]int{}
 	synctest.Test(t, func(t *testing.T) {
 		panicked = vh.Recover(func() {
 			cfg := flood.DefaultFloodConfig()
@@ -152,9 +154,26 @@ func runCase(t *testing.T, keys *scx.Keys, cs *caseSpec) (steps []stepObs, acc m
 				case "cleanup":
 					f.VerifCleanup()
 					steps = append(steps, stepObs{NowNs: time.Now().UnixNano(), OpIdx: -2, Cache: snapshot(f)})
+				case "issue":
+					// what Agent.TriggerSleep / TriggerWake do with the flooder: the command carries the
+					// local identity as origin and in SeenBy, is signed, and is handed to Flood*Command
+					rec.take()
+					now := time.Now()
+					if o.Kind == "wake" {
+						f.FloodWakeCommand(keys.Wake(o.Cmd, now.Unix()))
+					} else {
+						f.FloodSleepCommand(keys.Sleep(o.Cmd, now.Unix()))
+					}
+					steps = append(steps, stepObs{NowNs: now.UnixNano(), IsIssue: true, OpIdx: i, Fwd: rec.take(), Cache: snapshot(f)})
+					issued[fmt.Sprintf("%d/%d/%d", o.Cmd.Origin, o.Cmd.ID, o.Cmd.Ts)] = i
 				case "recv":
 					rec.take()
 					ok := deliver(o.Kind, o.From, o.Cmd)
+					if ok {
+						if j, was := issued[fmt.Sprintf("%d/%d/%d", o.Cmd.Origin, o.Cmd.ID, o.Cmd.Ts)]; was {
+							ownAccepted = append(ownAccepted, [2]int{j, i})
+						}
+					}
 					now := time.Now().UnixNano()
 					steps = append(steps, stepObs{NowNs: now, IsRecv: true, OpIdx: i, Accepted: ok, Fwd: rec.take(), Cache: snapshot(f)})
 					if ok {
@@ -295,10 +314,14 @@ func TestVerif(t *testing.T) {
 
 	var coq []string
 	do := func(cs *caseSpec) {
-		steps, acc, overflow, p := runCase(t, keys, cs)
+		steps, acc, ownAccepted, overflow, p := runCase(t, keys, cs)
 		if p != "" {
 			c.Fail("panic", p, cs)
 			return
+		}
+		// monitor: a command the agent issued itself is never accepted when it comes back
+		for _, oa := range ownAccepted {
+			c.Fail("own-command-accepted-after-issuing", fmt.Sprintf("the command issued at op %d was accepted when delivered back at op %d (SeenBy %v)", oa[0], oa[1], cs.Ops[oa[1]].Cmd.SeenBy), cs)
 		}
 		// monitor: every validly signed command is accepted at most once
 		for k, as := range acc {
@@ -350,7 +373,14 @@ func TestVerif(t *testing.T) {
 		}
 		var it []string
 		for _, s := range steps {
-			if s.IsRecv {
+			if s.IsIssue {
+				o := cs.Ops[s.OpIdx]
+				k := "KSleep"
+				if o.Kind == "wake" {
+					k = "KWake"
+				}
+				it = append(it, fmt.Sprintf("FIssue %s %s %s %s %s", vh.CoqZ(s.NowNs), k, scx.CoqCmd(o.Cmd), scx.CoqNs(s.Fwd), coqCache(s.Cache)))
+			} else if s.IsRecv {
 				o := cs.Ops[s.OpIdx]
 				k := "KSleep"
 				if o.Kind == "wake" {
@@ -424,6 +454,21 @@ func TestVerif(t *testing.T) {
 		w4b := *w4
 		do(&caseSpec{Why: "immediate-duplicate", Ops: []op{{Op: "recv", Kind: "sleep", From: 1, Cmd: w4}, {Op: "recv", Kind: "sleep", From: 2, Cmd: &w4b}}})
 
+		// the agent issues a command itself and gets it back with SeenBy stripped, rewritten, and intact
+		for _, kind := range []string{"sleep", "wake"} {
+			own := &scx.CmdSpec{Kind: kind, Origin: 0, ID: 77, Sig: "valid", TsAbs: u64p(base), SeenBy: []int{0}}
+			stripped, rewritten, intact, again := *own, *own, *own, *own
+			stripped.SeenBy, rewritten.SeenBy = nil, []int{2}
+			do(&caseSpec{Why: "witness-own-command-replayed", Ops: []op{
+				{Op: "issue", Kind: kind, Cmd: own},
+				{Op: "recv", Kind: kind, From: 1, Cmd: &stripped},
+				{Op: "advance", AdvanceMs: 150000},
+				{Op: "issue", Kind: kind, Cmd: &again},
+				{Op: "recv", Kind: kind, From: 2, Cmd: &rewritten},
+				{Op: "advance", AdvanceMs: 149000},
+				{Op: "recv", Kind: kind, From: 3, Cmd: &intact}}})
+		}
+
 		n := c.N(260, 6000)
 		for i := 0; i < n; i++ {
 			r := c.Rand.Fork()
@@ -435,7 +480,18 @@ func TestVerif(t *testing.T) {
 				case 0, 1, 2:
 					cs.Ops = append(cs.Ops, op{Op: "advance", AdvanceMs: int64(r.Pick(1, 999, 1000, 149999, 150000, 150001, 299000, 300000, 301000, 451000, 600000, 601000, 659000, 660000, 661000, 750000, 810000))})
 				case 3:
-					cs.Ops = append(cs.Ops, op{Op: "cleanup"})
+					if r.Chance(1, 2) {
+						cs.Ops = append(cs.Ops, op{Op: "cleanup"})
+						break
+					}
+					// the flooder issues a command of its own; its emitted copy may come back later with SeenBy altered
+					kind := []string{"sleep", "wake"}[r.Intn(2)]
+					o := op{Op: "issue", Kind: kind, Cmd: &scx.CmdSpec{Kind: kind, Origin: 0, ID: r.PickU64(70, 71), Sig: "valid",
+						TsAbs: u64p(uint64(946684800) + uint64(r.Pick(0, 150, 300))), SeenBy: []int{0}}}
+					cs.Ops = append(cs.Ops, o)
+					back := *o.Cmd
+					back.SeenBy = [][]int{nil, {2}, {0}, {1, 3}}[r.Intn(4)]
+					prev = append(prev, &op{Op: "recv", Kind: kind, Cmd: &back})
 				case 4, 5, 6:
 					if len(prev) > 0 {
 						// exact replay of an earlier delivery, possibly from another peer
